@@ -1,3 +1,5 @@
+//go:build !skip_c17c19_stall
+
 package main
 
 import (
